@@ -1,8 +1,10 @@
 #!/usr/bin/env python3
 """tools/mkmut.py : (re)generate selftest/<prop>/<rule>-<name>.patch from the MUTANTS table below.
-Each mutant is a small textual replacement in /repo (must be clean); the patch is `git diff`."""
+Each mutant is a small textual replacement made in a throw-away git worktree of /repo's HEAD (/repo itself is never
+touched); the patch is `git diff`."""
 import os, subprocess, sys
-REPO = "/repo"
+SRC = "/repo"
+REPO = "/var/tmp/parol-verif-mkmut-wt"
 OUT = "/verif/selftest"
 RT = "crates/parol_runtime/src/"
 PA = "crates/parol/src/"
@@ -15,9 +17,16 @@ exec(open("/verif/selftest/mutants.py").read())
 
 def main():
     only = sys.argv[1:] 
-    st = subprocess.check_output(["git", "-C", REPO, "status", "--porcelain"], text=True)
-    if st.strip():
-        print("repo dirty"); sys.exit(2)
+    subprocess.call(["git", "-C", SRC, "worktree", "remove", "--force", REPO], stderr=subprocess.DEVNULL)
+    subprocess.check_call(["git", "-C", SRC, "worktree", "add", "-q", "--detach", REPO, "HEAD"])
+    try:
+        run(only)
+    finally:
+        subprocess.call(["git", "-C", SRC, "worktree", "remove", "--force", REPO])
+        subprocess.call(["git", "-C", SRC, "worktree", "prune"])
+
+
+def run(only):
     for prop, rule, name, file, old, new, count in M:
         if only and prop not in only:
             continue
